@@ -11,7 +11,7 @@
 From EsVerif.Common Require Import Base Bytes.
 From Coq.Strings Require Import Byte.
 From Coq.Strings Require String.
-From EsVerif.C07 Require Import Model Spec Basics Proofs CmpProofs Skel Gen Tie.
+From EsVerif.C07 Require Import Model Spec Basics Proofs CmpProofs Extra Skel Gen Tie.
 
 (* extract_fields: original order filtered by the given names; Err on a missing name in strict
    mode or when no field would be kept *)
@@ -156,6 +156,14 @@ Theorem C07_scope_deciders_sound :
   /\ (forall a1 a2, comparable_b a1 a2 = true -> comparable a1 a2).
 Proof. exact scope_deciders_sound. Qed.
 
+(* the operations compose: a result of extract/remove/reorder is again a well-formed structured
+   array (shape kept, distinct names, at least one field, every column of the right extent) *)
+Theorem C07_results_well_formed :
+  (forall a keep strict r, wf a -> extract_fields a keep strict = Ok r -> wf r)
+  /\ (forall a rm r, wf a -> remove_fields a rm = Ok r -> wf r)
+  /\ (forall a ks strict r, wf a -> NoDup (given ks) -> reorder_fields a ks strict = Ok r -> wf r).
+Proof. exact (conj extract_wf (conj remove_wf reorder_wf)). Qed.
+
 (* Tie to the source.  Gen.v is regenerated on every run from esutil/numpy_util.py of the tree
    under check (harness/props/c07_translate.py, fail-closed): the class tuples of the isinstance
    dispatches, the operator of every guard, `in`/`not in` of the filter loops, the allocator and
@@ -197,6 +205,16 @@ Theorem C07_source_defaults_and_raises :
              ++ raises_add_fields ++ raises_reorder_fields ++ raises_copy_fields_by_name ++ raises_split_fields
              ++ raises_compare_arrays)%list.
 Proof. exact (conj tie_defaults tie_raises). Qed.
+
+(* The as-found combine_fields (output dimensioned by .size: the skeleton at UseSize) does NOT
+   satisfy the statement: refuted by a 2-d witness (raises) and a 0-d witness (shape (1,)).  This
+   is the defect repaired by fixes/C07/0001; C07_combine above is about the repaired code. *)
+Theorem C07_asfound_combine_refuted :
+  (combine_scope [w2d "a"; w2d "b"]
+   /\ ~ combine_spec [w2d "a"; w2d "b"] (combine_fields_g CEq CEq CNe UseSize [w2d "a"; w2d "b"]))
+  /\ (combine_scope [w0d "a"; w0d "b"]
+      /\ ~ combine_spec [w0d "a"; w0d "b"] (combine_fields_g CEq CEq CNe UseSize [w0d "a"; w0d "b"])).
+Proof. exact asfound_combine_refuted. Qed.
 
 Definition ex_a : sarray :=
   mkA [2; 1]
